@@ -21,23 +21,19 @@ elif m=='M2':  # read lock where a write happens
 	state.pkgCacheMu.Unlock()''','''	state.pkgCacheMu.RLock()
 	state.addCachedPackage(pkgPath, pkg)
 	state.pkgCacheMu.RUnlock()''')
-elif m=='M3':  # unlock before the store
+elif m=='M3':  # the write lock covers the import only: store after Unlock
     sub('engine.go','''	state.typeByFQNMu.Lock()
 	defer state.typeByFQNMu.Unlock()
 
-	typ, err := state.findTypeNoCache(importer, currentPkg, fqn)
+	pkg, err := importer.Import(pkgPath)
 	if err != nil {
 		return nil, err
-	}
-	state.typeByFQN[fqn] = typ
-	return typ, nil''','''	state.typeByFQNMu.Lock()
-	typ, err := state.findTypeNoCache(importer, currentPkg, fqn)
+	}''','''	state.typeByFQNMu.Lock()
+	pkg, err := importer.Import(pkgPath)
 	state.typeByFQNMu.Unlock()
 	if err != nil {
 		return nil, err
-	}
-	state.typeByFQN[fqn] = typ
-	return typ, nil''')
+	}''')
 elif m=='M4':  # a new shared field written during Run
     sub('engine.go','''	ruleSet *goRuleSet
 }''','''	ruleSet *goRuleSet
@@ -60,15 +56,11 @@ elif m=='M5':  # cache keyed by the object name only
 	return typ, nil
 }
 
-func (state *engineState) findTypeNoCache''','''	state.typeByFQN[key] = typ
+func lookupType''','''	state.typeByFQN[key] = typ
 	return typ, nil
 }
 
-func (state *engineState) findTypeNoCache''')
-    sub('engine.go','''	typ := obj.Type()
-	state.typeByFQN[fqn] = typ
-	return typ, nil''','''	typ := obj.Type()
-	return typ, nil''')
+func lookupType''')
 elif m=='M6':  # per-run eval env hoisted into the engine state
     sub('engine.go','''	env *quasigo.Env
 ''','''	env *quasigo.Env
@@ -126,3 +118,16 @@ if m=='M10':  # lock-order inversion: the package cache's writer peeks into the 
 	state.typeByFQNMu.RUnlock()
 	state.addCachedPackage(pkgPath, pkg)
 	state.pkgCacheMu.Unlock()''')
+
+if m=='M11':  # dependency answers cached engine-wide again (regression of fix a1ea77d)
+    sub('engine.go','''			importer.depTypes[key] = typ
+			return typ, nil''','''			importer.depTypes[key] = typ
+			state.typeByFQNMu.Lock()
+			state.typeByFQN[fqn] = typ
+			state.typeByFQNMu.Unlock()
+			return typ, nil''')
+if m=='M12':  # the RunnerState allocated for a nil State is stored back into the caller's RunContext (seed C08-13)
+    sub('runner.go','''		runnerState = newRunnerState(state)
+''','''		runnerState = newRunnerState(state)
+		ctx.State = runnerState
+''')
